@@ -867,7 +867,7 @@ Section ColumnsLocal.
     columns_fits items fp dc mw s = true ->
     let cs := columns_sizes items fp dc mw s in
     0 <= fp < zlen items /\ 0 <= dc /\ zlen cs = zlen items /\
-    Forall (fun t => 1 <= cw t) cs /\ Forall (fun t => 1 <= chh t) cs /\
+    Forall (fun t => 1 <= cw t) cs /\ Forall (fun t => 1 <= chh t /\ forall r, snd s = Some r -> chh t <= r) cs /\
     zsum (map cw cs) + dc * (zlen items - 1) <= fst s.
   Proof.
     unfold columns_fits. intro H. cbv zeta.
@@ -876,8 +876,9 @@ Section ColumnsLocal.
     apply andb_true_iff in H as [H H3]. apply andb_true_iff in H as [H1 H2].
     rewrite forallb_forall in H6.
     repeat split; try lia.
-    - apply Forall_forall. intros t Ht. specialize (H6 t Ht). unfold cw. lia.
-    - apply Forall_forall. intros t Ht. specialize (H6 t Ht). unfold chh. lia.
+    - apply Forall_forall. intros t Ht. specialize (H6 t Ht). unfold cw. apply andb_true_iff in H6 as [H6 _]. lia.
+    - apply Forall_forall. intros t Ht. specialize (H6 t Ht). unfold chh.
+      apply andb_true_iff in H6 as [H6 H8]. split; [lia|]. intros r Er. rewrite Er in H8. lia.
     - unfold cw. lia.
   Qed.
 
@@ -892,13 +893,15 @@ Section ColumnsLocal.
       nthz items (zlen pre) = Some (o, b, ci) /\ nth_info ki (zlen pre) = ci /\
       fst (snd x) = cw x /\ crows ci (snd x) = chh x /\
       Forall (fun t => 1 <= cw t) pre /\ 1 <= cw x /\ Forall (fun t => 1 <= cw t) post /\
-      (forall r, snd s = Some r -> chh x = r).
+      (forall r, snd s = Some r -> chh x <= r).
   Proof.
     intros Hf Hp. destruct (columns_fits_inv s Hf) as [Hfp [Hdc [Hlen [Hw [Hh Hsum]]]]].
     unfold columns_place in Hp.
     destruct (columns_place_from_inv fp dc _ 0 0 _ p eq_refl Hw Hp) as [pre [x [post [E ->]]]].
     pose proof (nthz_app_mid pre x post) as Hn. rewrite <- E in Hn. destruct x as [[w h] csz].
-    destruct (columns_sizes_nth items fp dc mw s _ _ _ _ Hn) as [o [b [ci [Hi [Hc1 [Hc2 Hc3]]]]]].
+    destruct (columns_sizes_nth items fp dc mw s _ _ _ _ Hn) as [o [b [ci [Hi [Hc1 Hc2]]]]].
+    assert (Hc3 : forall r, snd s = Some r -> h <= r).
+    { rewrite E in Hh. apply Forall_app in Hh as [_ Hh]. apply Forall_inv in Hh. apply Hh. }
     exists pre, (w, h, csz), post, o, b, ci. rewrite E in Hw.
     apply Forall_app in Hw as [Hpre Hrest]. pose proof (Forall_inv Hrest) as Hx. pose proof (Forall_inv_tail Hrest) as Hpost.
     unfold cw in Hx. cbn [fst] in Hx.
@@ -917,7 +920,7 @@ Section ColumnsLocal.
       rewrite zlen_app, zlen_cons in Hlen. rewrite xoff_sum.
       pose proof (zsum_cw_nonneg post Hpost). pose proof (zlen_nonneg pre). pose proof (zlen_nonneg post). nia.
     - split; [lia|]. unfold crows. destruct s as [c [r|]]; cbn [snd fst] in *.
-      + rewrite (Hbox r eq_refl). lia.
+      + specialize (Hbox r eq_refl). lia.
       + unfold columns_info. cbn [i_rows]. rewrite E.
         assert (chh x <= zmaxl (map (fun t : Z * Z * size => snd (fst t)) (pre ++ x :: post))).
         { apply zmaxl_ge. apply in_map_iff. exists x. split; [reflexivity|]. apply in_or_app. right. left. reflexivity. }
@@ -987,7 +990,7 @@ Section ColumnsLocal.
     destruct (columns_fits_inv s Hf) as [Hfp [Hdc [Hlen [Hw [Hh Hsum]]]]].
     destruct (nthz_some (columns_sizes items fp dc mw s) fp) as [[[w h] csz] Hn]; [lia|].
     destruct (nthz_split _ _ _ Hn) as [pre [post [E [Hl Hpre]]]].
-    destruct (columns_sizes_nth items fp dc mw s _ _ _ _ Hn) as [o [b [ci [Hi [Hc1 [Hc2 Hc3]]]]]].
+    destruct (columns_sizes_nth items fp dc mw s _ _ _ _ Hn) as [o [b [ci [Hi [Hc1 Hc2]]]]].
     pose proof Hw as Hw'. rewrite E in Hw'. apply Forall_app in Hw' as [Hpre' Hrest].
     pose proof (Forall_inv Hrest) as Hx. unfold cw in Hx. cbn [fst] in Hx.
     exists (Placed fp (xoff dc pre) 0 csz true false). split; [|split; [reflexivity|split]].
